@@ -347,7 +347,7 @@ def response_from(ctx):
 def policy_evaluation(ctx):
     """Evaluator::{partial_evaluate, evaluate, interpret}: how the value of a policy condition becomes satisfied / not / error"""
     from .common import SymValue
-    from .c02 import install_value_stubs
+    from .c02 import install_value_stubs, as_type_error
     P = ctx.prog('core')
     for meth, nargs in (('partial_evaluate', 2), ('evaluate', 2), ('interpret', 3)):
         f = P.method('evaluator.rs', meth, nargs=nargs, arg0=r'&evaluator::Evaluator')
@@ -404,7 +404,7 @@ def policy_evaluation(ctx):
                 e0 = v.fields[0]
                 if getattr(e0, 'id', None) == everr.id:
                     claims.append(OUT == 2)
-                elif isinstance(e0, Agg) and e0.fnames == ('type_error',):
+                elif as_type_error(e0) is not None:
                     # a non-boolean condition value is an error, never "satisfied"
                     claims.append(z3.And(OUT == 0, z3.Not(is_bool), z3.BoolVal(meth != 'interpret')))
                 elif isinstance(e0, Agg) and e0.fnames == ('non_value',):
